@@ -142,7 +142,32 @@ func outFirstStart() *genetics.Genome {
 	return genetics.NewGenome(1, []*neat.Trait{tr, tr2}, []*network.NNode{out, in1, hid, in2, bias}, genes)
 }
 
+// wideStart has one input, one bias and eight outputs, every output fed by both: 16 genes leaving only two source
+// nodes, so the toggle mutator can disable all but two of them.
+func wideStart() *genetics.Genome {
+	tr := neat.NewTrait()
+	tr.Id = 1
+	in := network.NewNNode(1, network.InputNeuron)
+	bias := network.NewNNode(2, network.BiasNeuron)
+	in.Trait, bias.Trait = tr, tr
+	in.ActivationType, bias.ActivationType = neatmath.NullActivation, neatmath.NullActivation
+	nodes := []*network.NNode{in, bias}
+	var genes []*genetics.Gene
+	for k := 0; k < 8; k++ {
+		out := network.NewNNode(3+k, network.OutputNeuron)
+		out.Trait = tr
+		nodes = append(nodes, out)
+		w := 0.25 * float64(k+1)
+		genes = append(genes, genetics.NewGeneWithTrait(tr, w, in, out, false, int64(2*k+1), w))
+		genes = append(genes, genetics.NewGeneWithTrait(tr, -w, bias, out, false, int64(2*k+2), -w))
+	}
+	return genetics.NewGenome(1, []*neat.Trait{tr}, nodes, genes)
+}
+
 func (l *lineage) startGenome(kind int) (*genetics.Genome, string) {
+	if kind == -1 {
+		return wideStart(), "wide"
+	}
 	if kind%4 == 3 {
 		return outFirstStart(), "outfirst"
 	}
@@ -696,7 +721,7 @@ func (l *lineage) crowdedScenario() {
 	if m == nil {
 		return
 	}
-	for try := 0; try < 60 && len(m.g.Genes) < 16; try++ {
+	for try := 0; try < 60 && len(m.g.Genes) < 15; try++ {
 		if try%3 == 2 {
 			l.mutate(m.gid, m.g, "addnode")
 		} else {
@@ -749,6 +774,12 @@ func recordLineage(args []string) int {
 		for i := 0; i < *steps; i++ {
 			l.step()
 		}
+	}
+	// a last short segment on the wide genome: big genome, almost everything disabled, then add-node
+	l.reset(-1)
+	l.crowdedScenario()
+	for i := 0; i < 30; i++ {
+		l.step()
 	}
 	l.rep.Evaluations = l.lines
 	l.rep.Cases = *segs
